@@ -302,7 +302,7 @@ func (c *SpecCtx) eval(e Expr) Val {
 		case *types.Basic:
 			if u.Info()&types.IsString != 0 {
 				i := c.materialize(c.eval(e.I), types.Typ[types.Int])
-				return Val{T: enc.uf("str.at", []string{"Str", enc.I()}, enc.sortOf(types.Typ[types.Uint8]), x.T, c.toInt(i)), Typ: types.Typ[types.Uint8]}
+				return Val{T: enc.uf("strat", []string{"Str", enc.I()}, enc.sortOf(types.Typ[types.Uint8]), x.T, c.toInt(i)), Typ: types.Typ[types.Uint8]}
 			}
 		}
 		c.fail("cannot index %s (type %s)", e.X, x.Typ)
@@ -321,7 +321,7 @@ func (c *SpecCtx) eval(e Expr) Val {
 			return Val{T: fmt.Sprintf("(mk-slice %s %s %s %s %s)", sArr(x.T), enc.add(sOff(x.T), lo), enc.sub(hi, lo), enc.sub(sCap(x.T), lo), sFld(x.T)), Typ: x.Typ}
 		case *types.Basic:
 			if u.Info()&types.IsString != 0 {
-				hi := fmt.Sprintf("(str.len %s)", x.T)
+				hi := fmt.Sprintf("(strlen %s)", x.T)
 				if e.Hi != nil {
 					hi = c.toInt(c.materialize(c.eval(e.Hi), types.Typ[types.Int]))
 				}
@@ -617,7 +617,7 @@ func (c *SpecCtx) evalCall(e *ECall) Val {
 			return Val{T: sCap(x.T), Typ: intT}
 		case *types.Basic:
 			if u.Info()&types.IsString != 0 {
-				return Val{T: fmt.Sprintf("(str.len %s)", x.T), Typ: intT}
+				return Val{T: fmt.Sprintf("(strlen %s)", x.T), Typ: intT}
 			}
 		case *types.Map:
 			return Val{T: c.vc.mapLen(c.st, u, x.T), Typ: intT}
@@ -693,6 +693,11 @@ func (c *SpecCtx) evalCall(e *ECall) Val {
 		}
 		i := c.toInt(c.eval(e.Args[1]))
 		return Val{T: enc.elemPtr(s.T, i), Typ: types.NewPointer(st.Elem())}
+	case "index_in":
+		// index_in(s, p): index of the element of s that p points to (meaningful when p points into s)
+		sv := c.eval(e.Args[0])
+		pv := c.eval(e.Args[1])
+		return Val{T: enc.sub(pIdx(pv.T), sOff(sv.T)), Typ: intT}
 	case "round":
 		x := c.materialize(c.eval(e.Args[0]), types.Typ[types.Float64])
 		return Val{T: fmt.Sprintf("(fp.roundToIntegral RNA %s)", x.T), Typ: x.Typ}
